@@ -96,7 +96,8 @@ class ValidationError(Fault):
     def __init__(self, obj, custom_msg='The value %r could not be validated.'):
         try:
             msg = custom_msg % (obj,)
-        except TypeError:
+        except (TypeError, ValueError):
+            # ValueError: eg. an int too large to convert to str
             msg = custom_msg
 
         super(ValidationError, self).__init__(self.CODE, msg)
